@@ -241,7 +241,7 @@ def run_part(ctx, bad, mlr_rows, P):
     """returns (terms, meta) for RegexHarness.rchk"""
     rng = ctx.rng
     quick = ctx.tier == "quick"
-    N = 200 if quick else 5000
+    N = 150 if quick else 5000
     terms, meta = [], []
     BS = 'gssub(%s, "@", "\\\\")'          # '@' stands for the backslash in TSV data
     rows = []
@@ -300,7 +300,7 @@ def run_part(ctx, bad, mlr_rows, P):
     ctx.dist("regex_model_rows", len(rows))
 
     # programs: one mlr process each
-    nprog = 40 if quick else 600
+    nprog = 30 if quick else 600
     jobs = []
     for k in range(nprog):
         PROGRAM_MODE[0] = True
